@@ -225,6 +225,13 @@ func finalizeWriting() {
 		case line := <-logBuffer:
 			adapter.Write(line, 0)
 		case <-time.After(10 * time.Millisecond):
+			// The timeout can win the select although lines are still queued: if
+			// this goroutine is not scheduled for 10ms after the timer was created,
+			// both cases are ready and one is picked at random. Only stop when the
+			// buffer really is empty.
+			if len(logBuffer) > 0 {
+				continue
+			}
 			fmt.Printf("%s%s %s EOF%s\n", InfoLevel.color(), time.Now().Format(timeFormat), leftArrow, endColor())
 			return
 		}
